@@ -176,6 +176,12 @@ def make_user(cx, p):
     def body(m):
         if kind == 'const':
             return p[2]
+        if kind == 'raise_truth':
+            # the answer cannot be tested for truth: the filter fails exactly as if the predicate had raised (C16-m10)
+            class BadTruth:
+                def __bool__(self):
+                    raise Boom(p[2])
+            return BadTruth()
         if kind == 'raise':
             if p[2] == 0:
                 raise StopIteration()       # a predicate may fail with any exception, this one included (C03-m10)
@@ -812,6 +818,21 @@ def run_lcase(case):
 
         def unwrap(w):
             return w.data
+    elif mode == 'partial':
+        # to_wrapped_value raises on strings: get raises and leaves the list alone, pop has removed the element (C19-m12)
+        def conv(j):
+            if isinstance(j, str):
+                raise Boom(7)
+            return ('T', j)
+
+        class Owner(Document):
+            b = attr_list_typed(tuple, path.b, to_wrapped_value=conv, to_json_value=lambda w: w[1])
+
+        def wrap(v):
+            return ('T', v)
+
+        def unwrap(w):
+            return w[1]
     elif mode == 'box':
         # a wrapper type without __eq__: membership and the other operations go through to_json_value (C19-m7)
         class Box:
